@@ -16,6 +16,8 @@ for p in sorted(glob.glob("/verif/evidence/replay/C03-*.json")):
     info = getattr(f, "__info__", {})
     sd = info.get("start_date", datetime.date(1,1,1)); ed = info.get("end_date", datetime.date(9999,1,1))
     d = max(sd, datetime.date(2015,1,1))
+    if d > ed: d = max(sd, datetime.date(ed.year, 1, 1)) if ed.year > 1 else datetime.date(2000,1,1)
+    if d < datetime.date(1985,1,1): d = datetime.date(min(ed.year, 2000),1,1)
     if name == "_unterhaltsvors_anspruch_kind_m_anwendungsvors": d = datetime.date(2015,1,1)
     params, _ = set_up_policy_environment(d)
     sig = inspect.signature(f)
